@@ -142,6 +142,12 @@ Fixpoint built (g : gen) : bool :=
                      end
   end.
 
+(* generator objects as the constructors see them (used by the generated code gen/Gen_C13.v):
+   g.size, isinstance(g, MeshGenerator), g.generators *)
+Definition obj_size (g : gen) : nat := csize g.
+Definition obj_is_mesh (g : gen) : bool := match g with Mesh _ => true | _ => false end.
+Definition obj_generators (g : gen) : list gen := match g with Mesh hs | Concat hs | Ensemble hs => hs | _ => [] end.
+
 (* ---------------------------------------------------------------- sampling *)
 Section Sample.
   Variable draw : nat -> nat -> list (list Z).         (* leaf id -> call -> columns *)
@@ -203,12 +209,12 @@ Section Sample.
         | Some (_, cs) => Some (single_or FU cs)
         | None => None
         end
-    | Filter g m _ _ =>
+    | Filter g m _ upd =>
         match sample g k with
         | Some (_, cs) =>
             let mk := mask m k in
             match cs with
-            | [] => None
+            | [] => if upd then None else Some (FL, [])       (* len(xs[0]) only when update_size: IndexError *)
             | _ => if forallb (fun c => Nat.eqb (length c) (length mk)) cs
                    then Some (single_or FL (map (select mk) cs)) else None
             end
